@@ -2,13 +2,17 @@
 import lanes
 
 PROPERTIES_FILE = "Properties/Properties_C02.v"
-COQ_DEPS = ["Proofs/Lane_iface.vo"]
+COQ_DEPS = ["Proofs/Lane_iface.vo", "Proofs/SLane_progress.vo"]
+EXTRA_PROPERTIES_FILES = ["Properties/Properties_C02_slane.v"]
 GEN_MODULES = ["Gen_dqstate", "Gen_lanesites", "Gen_once"]
 LEVEL = "proof"
 TRUSTED = [
-    "PARTIAL: the theorems are about the dq_state transition bodies / atomic site lists translated from the source on every run "
-    "(all 2^64 words); no global invariant of the lane protocol over all interleavings is proved; the property itself is decided "
-    "on the implementation by the stress oracle reported in this evidence (exploration, not proof)",
+    "PARTIAL: (a) word-level theorems about the dq_state transition bodies / atomic site lists translated from the source on every "
+    "run (all 2^64 words); (b) protocol theorems (Properties_C02_slane.v) over ALL interleavings for one serial lane under "
+    "dispatch_async with any number of submitters and drainers (Model/SLane.v, whose dq_state steps are the regenerated bodies; "
+    "its list / root-queue steps are hand-modelled); synchronous submission, concurrent and chained queues and pool growth are "
+    "outside that model: there the property is decided on the implementation by the stress oracle reported in this evidence "
+    "(exploration, not proof)",
     "src2v translator (clang AST -> Gallina), validated on the functions that have differential harnesses (C06, C12, C18)",
 ]
 ASSUMPTIONS = ["the stress oracle explores the schedules the OS and the perturbation hook produce; absence of a failure there is not a proof"]
